@@ -574,7 +574,7 @@ def _after(F: IntegrateFacts, rn, n) -> bool:
     if rn.id in dom[n.id]:
         return True
     cd = F.cfg.control_dependence()
-    guards = [t for t, _l in cd[rn.id] if F.cfg.nodes[t] is not F.loop_head]
+    guards = [t for t, _l in cd[rn.id] if F.cfg.nodes[t] not in F.loop_controls]
     return bool(guards) and all(g in dom[n.id] for g in guards) and n.line > rn.line
 
 
